@@ -13,7 +13,7 @@ LEVEL = "proof"
 RULE = ("kinds: theta (one SparseDrugComboMCMCSample / SparseDrugComboInteractionMCMCSample with random parameters -- "
         "short dyadic k/2^m values plus a minority of full-precision doubles, non-zero LAST embedding row, embedding "
         "dim 0..3 -- predicting mean / viability / variance on a screen of arity 1 or 2 (<= 12 rows) built through the real "
-        "batchie.data.Screen with control in either / both columns by name or by dose; plus Screen.subset, nested "
+        "batchie.data.Screen with control in either / both columns by name or by dose; plus Screen.subset, every Plate, nested "
         "ScreenSubset.subset, a row permutation (or index list with repeats), the column-swapped screen and the "
         "single-agent arity-1 screen); all (a ThetaHolder of 0..4 samples through predict_*_all / predict_*_avg); "
         "malformed (embedding too small, arity 3, interaction type on arity 1, missing lookup key, declared n_thetas "
@@ -475,6 +475,13 @@ def _pred_theta(desc, theta, scr, base):
             if not _veq(a, _sel(b, keep2), 0.0):
                 return "%s on a nested subset differs from the corresponding entries of the whole-screen prediction" % nm
 
+        # per-plate scoring: every Plate of the screen
+        for plate in scr.plates:
+            pk = [i for i in range(n) if plate.selection_vector[i]]
+            for nm, a, b in zip(names, _predict3(theta, plate), base):
+                if not _veq(a, _sel(b, pk), 0.0):
+                    return "%s on plate %d differs from the corresponding entries of the whole-screen prediction" % (nm, plate.plate_id)
+
     # row order: a screen built from the rows in another order (or with repeats)
     idx = desc["idx"]
     if ok_base and n > 0:
@@ -581,6 +588,7 @@ def run(desc):
     k = desc["kind"]
     scr = _build_screen(desc["scr"])
     tids = [[int(x) for x in r] for r in scr.treatment_ids]
+    scr_wire = _screen_wire(scr)  # taken before any prediction runs
     if k == "theta":
         theta = _mk_theta(desc["theta"])
         snap = _snap(theta, scr)
@@ -604,7 +612,7 @@ def run(desc):
             feats.append("idx-repeats")
         if any(isinstance(x, ImplError) for x in base):
             feats.append("raises")
-        return dict(wire=[0, _theta_wire(desc["theta"]), _screen_wire(scr)], impl=base, pred=pred,
+        return dict(wire=[0, _theta_wire(desc["theta"]), scr_wire], impl=base, pred=pred,
                     features=feats, cmp=_cmp_theta)
     if k == "all":
         import warnings
@@ -649,7 +657,7 @@ def run(desc):
             feats.append("declared!=stored")
         if any(isinstance(x, ImplError) for x in outs):
             feats.append("raises")
-        return dict(wire=[1, [n, [_theta_wire(t) for t in desc["thetas"]]], _screen_wire(scr)], impl=outs, pred=pred,
+        return dict(wire=[1, [n, [_theta_wire(t) for t in desc["thetas"]]], scr_wire], impl=outs, pred=pred,
                     features=feats, cmp=_cmp_all)
     raise ValueError(k)
 
